@@ -1,6 +1,7 @@
 //go:build verif
 
-package timesim
+// Package simkeys holds the fixture key pool and the certificate / token minting helpers of the simulated parties.
+package simkeys
 
 import (
 	"crypto"
@@ -24,28 +25,28 @@ import (
 	"github.com/go-jose/go-jose/v4/jwt"
 )
 
-func verifDir() string {
+func VerifDir() string {
 	if d := os.Getenv("VERIF_DIR"); d != "" {
 		return d
 	}
 	return "/verif"
 }
 
-func fixturePath(name string) string { return filepath.Join(verifDir(), "fixtures", "keys", name+".pem") }
+func FixturePath(name string) string { return filepath.Join(VerifDir(), "fixtures", "keys", name+".pem") }
 
 var (
 	keyMu    sync.Mutex
 	keyCache = map[string]crypto.Signer{}
 )
 
-// fixtureKey loads a private key of the fixture pool (no key generation at run time).
-func fixtureKey(name string) crypto.Signer {
+// FixtureKey loads a private key of the fixture pool (no key generation at run time).
+func FixtureKey(name string) crypto.Signer {
 	keyMu.Lock()
 	defer keyMu.Unlock()
 	if k, ok := keyCache[name]; ok {
 		return k
 	}
-	b, err := os.ReadFile(fixturePath(name))
+	b, err := os.ReadFile(FixturePath(name))
 	if err != nil {
 		panic(err)
 	}
@@ -75,7 +76,7 @@ func fixtureKey(name string) crypto.Signer {
 	return k
 }
 
-func algFor(k crypto.Signer) jose.SignatureAlgorithm {
+func AlgFor(k crypto.Signer) jose.SignatureAlgorithm {
 	switch kk := k.(type) {
 	case *rsa.PrivateKey:
 		return jose.PS256
@@ -92,8 +93,8 @@ func algFor(k crypto.Signer) jose.SignatureAlgorithm {
 	panic("unsupported key")
 }
 
-// mintCA creates a self-signed CA valid around the (fake) now.
-func mintCA(key crypto.Signer, notAfter time.Time) (*x509.Certificate, []byte) {
+// MintCA creates a self-signed CA valid around the (fake) now.
+func MintCA(key crypto.Signer, notAfter time.Time) (*x509.Certificate, []byte) {
 	tpl := &x509.Certificate{
 		SerialNumber: big.NewInt(1), Subject: pkix.Name{CommonName: "sim root"},
 		NotBefore: time.Now().Add(-time.Hour), NotAfter: notAfter,
@@ -107,7 +108,7 @@ func mintCA(key crypto.Signer, notAfter time.Time) (*x509.Certificate, []byte) {
 	return c, der
 }
 
-func mintLeaf(ca *x509.Certificate, caKey crypto.Signer, key crypto.Signer, notAfter time.Time, serial int64) (*x509.Certificate, []byte) {
+func MintLeaf(ca *x509.Certificate, caKey crypto.Signer, key crypto.Signer, notAfter time.Time, serial int64) (*x509.Certificate, []byte) {
 	tpl := &x509.Certificate{
 		SerialNumber: big.NewInt(serial), Subject: pkix.Name{CommonName: "sim signer"},
 		NotBefore: time.Now().Add(-time.Hour), NotAfter: notAfter,
@@ -121,7 +122,7 @@ func mintLeaf(ca *x509.Certificate, caKey crypto.Signer, key crypto.Signer, notA
 	return c, der
 }
 
-func mintIntermediate(ca *x509.Certificate, caKey crypto.Signer, key crypto.Signer, notAfter time.Time, serial int64) (*x509.Certificate, []byte) {
+func MintIntermediate(ca *x509.Certificate, caKey crypto.Signer, key crypto.Signer, notAfter time.Time, serial int64) (*x509.Certificate, []byte) {
 	tpl := &x509.Certificate{
 		SerialNumber: big.NewInt(serial), Subject: pkix.Name{CommonName: "sim intermediate"},
 		NotBefore: time.Now().Add(-time.Hour), NotAfter: notAfter,
@@ -135,15 +136,15 @@ func mintIntermediate(ca *x509.Certificate, caKey crypto.Signer, key crypto.Sign
 	return c, der
 }
 
-func pemCert(der []byte) []byte { return pem.EncodeToMemory(&pem.Block{Type: "CERTIFICATE", Bytes: der}) }
+func PEMCert(der []byte) []byte { return pem.EncodeToMemory(&pem.Block{Type: "CERTIFICATE", Bytes: der}) }
 
-// signJWT creates a compact JWS with the given claims.
-func signJWT(key crypto.Signer, kid string, claims map[string]any) string {
+// SignJWT creates a compact JWS with the given claims.
+func SignJWT(key crypto.Signer, kid string, claims map[string]any) string {
 	opts := (&jose.SignerOptions{}).WithType("JWT")
 	if kid != "" {
 		opts = opts.WithHeader("kid", kid)
 	}
-	sig, err := jose.NewSigner(jose.SigningKey{Algorithm: algFor(key), Key: key}, opts)
+	sig, err := jose.NewSigner(jose.SigningKey{Algorithm: AlgFor(key), Key: key}, opts)
 	if err != nil {
 		panic(err)
 	}
@@ -154,8 +155,8 @@ func signJWT(key crypto.Signer, kid string, claims map[string]any) string {
 	return tok
 }
 
-// jwtPayload decodes the (unverified) payload of a compact JWS.
-func jwtPayload(tok string) (map[string]any, error) {
+// JWTPayload decodes the (unverified) payload of a compact JWS.
+func JWTPayload(tok string) (map[string]any, error) {
 	parts := strings.Split(tok, ".")
 	if len(parts) != 3 {
 		return nil, fmt.Errorf("not a compact JWS")
@@ -168,7 +169,7 @@ func jwtPayload(tok string) (map[string]any, error) {
 	return m, json.Unmarshal(b, &m)
 }
 
-func jwksJSON(keys ...jose.JSONWebKey) []byte {
+func JWKSJSON(keys ...jose.JSONWebKey) []byte {
 	b, _ := json.Marshal(jose.JSONWebKeySet{Keys: keys})
 	return b
 }
